@@ -71,6 +71,25 @@ Theorem c16_abortable_recovers : forall s c f,
 Proof. exact abortable_recovers. Qed.
 Print Assumptions c16_abortable_recovers.
 
+(* The call during which the abortable error arrives fails (for a send: its future, the batch that
+   was waiting for the partition is failed and never produced), and the partitions and the group
+   already registered with the coordinator are kept ... *)
+Theorem c16_abortable_keeps_registered : forall s c f,
+  wfb s = true -> st s <> ABORTABLE -> st (api_st s c f) = ABORTABLE ->
+  p0 (api_st s c f) = p0 s /\ p1 (api_st s c f) = p1 s /\ (grp s = true -> grp (api_st s c f) = true) /\
+  is_error (api_res s c f) = true.
+Proof. exact abortable_keeps. Qed.
+Print Assumptions c16_abortable_keeps_registered.
+
+(* ... so that abort (and the context exit with an exception) sends EndTxn(ABORT) exactly when
+   something is registered there. *)
+Theorem c16_abort_ends_at_coordinator : forall s,
+  wfb s = true -> st s = ABORTABLE ->
+  api_req s Abort None = (if is_empty_txn s then [] else [REndTxn false]) /\
+  api_req s CtxExc None = (if is_empty_txn s then [] else [REndTxn false]).
+Proof. exact abort_sends_endtxn. Qed.
+Print Assumptions c16_abort_ends_at_coordinator.
+
 (* Fatal errors are absorbing: from FATAL_ERROR every program leaves the state unchanged, emits
    no request, and every call fails — except the context exit with an exception, which lets the
    application's exception propagate. *)
